@@ -13,6 +13,7 @@ import TallyVerif.Lemmas.FsFrame
   same path, settings.yaml possibly extended by appended lines, the legacy CSV possibly moved to a *fresh*
   backup name — over all 480 budget shapes, for the repaired migration; for the code as it is the same holds
   except when a `.bak` already exists (`D15c_init_clobbers_bak`, `init_frame_impl_partial`).
+* `settings_append_only`: `init` / `up --migrate` leave settings.yaml as `old content ++ appended lines` (all shapes, both variants).
 PARTIAL: argparse / runtime glue and OS durability are outside the model.
 -/
 namespace TallyVerif.Fs
@@ -211,5 +212,59 @@ example : WF ((⟨.plain, .withRules, false, false, false, false, true⟩ : Shap
   intro h; revert h; decide
 example : (⟨.top, .settings⟩ : Path) ∉ outputPaths ((⟨.plain, .withRules, false, false, false, false, true⟩ : Shape).fs id : FS Sym) := by
   decide
+
+
+/-! ## settings.yaml is only ever appended to -/
+
+
+/-- a chunk that is one of the lines tally appends to settings.yaml (`merchants_file:` / `views_file:` and their comments) -/
+def isLineChunk : Chunk Sym → Bool
+  | .line _ => true
+  | _ => false
+
+/-- settings.yaml after a command against settings.yaml before it: still a file, the old content is a PREFIX of the new one, and what
+    follows the old content consists of appended lines only -/
+def settingsExtendedB (fs₀ fs : FS Sym) (p : Path) : Bool :=
+  match fileAt fs₀ p with
+  | none => true
+  | some c =>
+    match fileAt fs p with
+    | none => false
+    | some c' => c.isPrefixOf c' && (c'.drop c.length).all isLineChunk
+
+private theorem settingsExtendedB_spec {fs₀ fs : FS Sym} {p : Path} (h : settingsExtendedB fs₀ fs p = true) {c : Content Sym}
+    (hc : fileAt fs₀ p = some c) : ∃ t, fileAt fs p = some (c ++ t) ∧ t.all isLineChunk = true := by
+  unfold settingsExtendedB at h
+  rw [hc] at h
+  cases hf : fileAt fs p with
+  | none => simp [hf] at h
+  | some c' =>
+    simp only [hf, Bool.and_eq_true] at h
+    obtain ⟨t, rfl⟩ := List.isPrefixOf_iff_prefix.mp h.1
+    exact ⟨t, rfl, by simpa using h.2⟩
+
+set_option maxRecDepth 100000 in
+/-- C20 "settings.yaml may only gain appended lines", as an equation: for `tally init` and `tally up --migrate` (code as it is and
+    repaired migration), over all budget shapes, new content of settings.yaml = old content ++ t, where t consists of the lines tally
+    appends (`merchants_file:` / `views_file:` with their comments) and nothing else — the old content is never re-written. The model
+    holds contents symbolically; that the real commands leave the old BYTES as a prefix whatever their form (CRLF, BOM, no final
+    newline …) is the byte-level oracle of harness/props/c20.py. -/
+theorem settings_append_only (cv : CsvVariant) (hcv : cv = .impl ∨ cv = .repaired) (lv : LayoutVariant) (p : Prog)
+    (hp : p = .init ∨ p = .upMigrateHtml) (s : Shape) (c : Content Sym) (h : fileAt (s.fs id : FS Sym) ⟨.top, .settings⟩ = some c) :
+    ∃ t, fileAt (complete ⟨cv, lv⟩ p (s.fs id)).fs ⟨.top, .settings⟩ = some (c ++ t) ∧ t.all isLineChunk = true := by
+  have hall : ([CsvVariant.impl, CsvVariant.repaired].all fun cv => [Prog.init, Prog.upMigrateHtml].all fun p => allShapes.all fun s =>
+      settingsExtendedB (s.fs id) (complete ⟨cv, .impl⟩ p (s.fs id)).fs ⟨.top, .settings⟩) = true := by decide +kernel
+  have hl : complete ⟨cv, lv⟩ p (s.fs id : FS Sym) = complete ⟨cv, .impl⟩ p (s.fs id) := by
+    rcases hp with rfl | rfl <;> rfl
+  rw [hl]
+  apply settingsExtendedB_spec _ h
+  have h1 := List.all_eq_true.mp hall cv (by rcases hcv with rfl | rfl <;> simp)
+  have h2 := List.all_eq_true.mp h1 p (by rcases hp with rfl | rfl <;> simp)
+  exact List.all_eq_true.mp h2 s (mem_allShapes s)
+
+/-- non-vacuity: a legacy budget; `tally init` appends four lines (merchants_file + views_file, each with its comment) -/
+example : fileAt (complete .repaired .init ((⟨.plain, .withRules, false, false, false, false, true⟩ : Shape).fs id : FS Sym)).fs ⟨.top, .settings⟩
+    = some ([.orig .settings (settingsMeta .plain false)] ++ [.line .mfComment, .line .mfKey, .line .vfComment, .line .vfKey]) := by
+  decide +kernel
 
 end TallyVerif.Fs
